@@ -206,6 +206,11 @@ def catalogue_c11(seed, tier, rng):
         c.add("classify", "quantile", [e8], {"k": k})
         c.add("classify", "natural_breaks", [e8], {"k": k})
     c.add("classify", "natural_breaks", [e8], {"k": 3, "num_sample": 20})
+    # num_sample varied both ways on rasters of one size (wave 4, c11d-1: a cached shuffle sorted in place by
+    # the larger sample breaks only the *smaller* sample that follows)
+    c.add("classify", "natural_breaks", [e8], {"k": 3, "num_sample": 33})
+    c.add("classify", "natural_breaks", [e8], {"k": 3, "num_sample": 7})
+    c.add("classify", "natural_breaks", [ei], {"k": 3, "num_sample": 20})
     c.add("classify", "natural_breaks", [ei], {"k": 3})
     c.add("classify", "equal_interval", [ei], {"k": 3})
     c.add("classify", "equal_interval", [e8], {"k": 5}, backend="dask", chunks={e8: _chunks(rng, (H0, W0))})
